@@ -267,6 +267,33 @@ def run_case(case):
                         after(sch, ['CONSUME', case.get('consumer'), vi])
                         done_tasks.append(sch.fresh(vi))
                         after(sch, ['FRESH', vi])
+                    # the caller goes on using the mutable objects it passed
+                    # as arguments (adds a mapping, extends a header list):
+                    # rows already collected are not views of them
+                    touched = 0
+                    for a in w.args:
+                        if isinstance(a, dict):
+                            a['added-afterwards'] = 'x'
+                        elif isinstance(a, list):
+                            a.append('added-afterwards')
+                        elif isinstance(a, set):
+                            a.add('added-afterwards')
+                        else:
+                            continue
+                        touched += 1
+                    if touched:
+                        probes['arguments-edited-afterwards'] = 1
+                        for t in list(sch.tasks.values()) + done_tasks:
+                            for i, obj in enumerate(t.objs):
+                                if canon(obj) != t.rows[i]:
+                                    raise Violation(
+                                        'delivered-row-follows-argument',
+                                        '%s: row %d delivered to iterator '
+                                        '%s was %r and became %r when the '
+                                        'caller edited an argument object '
+                                        'after the pass'
+                                        % (label, i, t.tid, t.rows[i],
+                                           canon(obj)))
                 except Violation as v:
                     sig = {'recipe': label,
                            'vclass': v.vclass.replace('fresh-pass-', '')}
